@@ -54,6 +54,30 @@ def local_decl(fn, did):
     return None
 
 
+def ineq_on_edge(cond, truth, resolve):
+    """the inequality that holds on the (cond, truth) edge, in the normal form (expr, strict): `expr > 0` when strict else `expr >= 0`;
+    operands may come in any order and under leading negations. None when the condition is not an order comparison."""
+    import sympy
+    from tsg.sym import to_sympy, NotClosedForm
+    c = strip(cond)
+    neg = not truth
+    while c is not None and c.get("k") == "UnaryOperator" and c.get("op") == "!":
+        neg = not neg
+        c = strip(c["c"][0])
+    if c is None or c.get("k") != "BinaryOperator" or c.get("op") not in ("<", "<=", ">", ">="):
+        return None
+    try:
+        a, b = to_sympy(c["c"][0], resolve), to_sympy(c["c"][1], resolve)
+    except NotClosedForm:
+        return None
+    op = c["op"]
+    expr, strict = (a - b, op == ">") if op in (">", ">=") else (b - a, op == "<")
+    if neg:
+        expr, strict = -expr, not strict
+    return sympy.simplify(expr), strict
+
+
+
 def run(chk):
     db = DB("serial")
     chk.rule("C15-D1.index", "every chain-index argument of a TasmanianDREAM accessor carries the dataflow fact 'arg < num_chains' "
@@ -222,8 +246,21 @@ def run(chk):
                 for x in walk(outer["init"]):
                     if x.get("k") == "VarDecl":
                         tvar = x["name"]
-            ok = any(truth is True and txt(strip(cn)) == "%s >= num_burnup" % tvar for cn, truth in edges)
-            ok2 = any(truth is False and txt(strip(cn)) == "%s < num_burnup" % tvar for cn, truth in edges)
+            import sympy as _sp
+            T_, NB_ = _sp.Symbol("t_iter", integer=True), _sp.Symbol("num_burnup", integer=True)
+
+            def res_t(n, tvar=tvar):
+                if n.get("k") == "DeclRefExpr" and n.get("var") == tvar:
+                    return T_
+                if n.get("k") == "DeclRefExpr" and n.get("var") == "num_burnup":
+                    return NB_
+                return None
+            ok, ok2 = False, False
+            for cn, truth in edges:
+                iq = ineq_on_edge(cn, truth, res_t)
+                # on the edge taken: t - num_burnup >= 0
+                if iq is not None and _sp.simplify(iq[0] - (T_ - NB_)) == 0 and not iq[1]:
+                    ok = True
             chk.ob("C15-D3.books", fname, "saveStateHistory under t >= num_burnup", ok or ok2, fn.loc(s),
                    "dominating edges: %s" % [(txt(c), t) for c, t in edges])
             # inside the outer loop only (not in the chain loops)
@@ -291,17 +328,32 @@ def run(chk):
             init_ok = decl is not None and decl.get("c") and txt(strip(decl["c"][0])).startswith(tuple(sized[v] for v in valid))
             chk.ob("C15-D3.accept", fname, "keep_new starts as valid[i]", bool(init_ok), fn.loc(decl), txt(decl))
             form = fn.d.get("targs", "")
-            want_reg = "*ival / state.getPDFvalue(%s) >= get_random01()" % lv
-            want_log = "*ival - state.getPDFvalue(%s) >= log(get_random01())" % lv
             texts = [t for _, t in assigns]
-            chk.ob("C15-D3.accept", fname, "regular form: ratio >= uniform draw", any(want_reg in t for t in texts), fn.loc(iff), str(texts))
-            chk.ob("C15-D3.accept", fname, "log form: difference >= log(uniform draw)", any(want_log in t for t in texts), fn.loc(iff), str(texts))
+            import sympy as _sp
+            NEW_, OLD_, U_ = _sp.Symbol("p_new", positive=True), _sp.Symbol("p_old", positive=True), _sp.Symbol("u01", positive=True)
+
+            def res_p(n, lv=lv):
+                t_ = txt(n)
+                if n.get("k") in ("UnaryOperator", "CXXOperatorCallExpr") and n.get("op") == "*" and t_ == "*ival":
+                    return NEW_
+                if n.get("k") == "CXXMemberCallExpr" and (callee(n) or "").endswith("::getPDFvalue") and txt(strip(call_args(n)[0])) in (lv, "(int)%s" % lv):
+                    return OLD_
+                if n.get("k") == "CXXOperatorCallExpr" and n.get("op") == "()" and t_.startswith("get_random01"):
+                    return U_
+                return None
+            laws = [ineq_on_edge(strip(n["c"][1]), True, res_p) for n, t in assigns]
+            laws = [l_ for l_ in laws if l_ is not None]
+            ok_reg = any(_sp.simplify(e - (NEW_ / OLD_ - U_)) == 0 and not st for e, st in laws)
+            ok_log = any(_sp.simplify(e - (NEW_ - OLD_ - _sp.log(U_))) == 0 and not st for e, st in laws)
+            chk.ob("C15-D3.accept", fname, "regular form: ratio >= uniform draw", ok_reg, fn.loc(iff), str(texts))
+            chk.ob("C15-D3.accept", fname, "log form: difference >= log(uniform draw)", ok_log, fn.loc(iff), str(texts))
             # automatic accept only on strictly greater
             auto = [(n, t) for n, t in assigns if t == "true"]
             oka = False
             for n, t in auto:
                 for cn, truth in cond_edges_dominating(fn, n):
-                    if truth and txt(strip(cn)) == "*ival > state.getPDFvalue(%s)" % lv:
+                    iq = ineq_on_edge(cn, truth, res_p)
+                    if iq is not None and _sp.simplify(iq[0] - (NEW_ - OLD_)) == 0 and iq[1]:
                         oka = True
             chk.ob("C15-D3.accept", fname, "automatic accept only when new value is strictly larger", oka, fn.loc(iff), str(texts))
             # the random tests happen only for valid proposals
